@@ -2,8 +2,9 @@
 """sched_d_lib - helpers of work package W7 (expansion scheduler, SchedD).
 
 Model side : the Lean driver commands of lean/Driver/CmdSchedD.lean
-             (schedd-bfs / schedd-find / schedd-seq / schedd-accept), spoken to
-             through `Drv` (one request line in, one reply line out).
+             (schedd-bfs / schedd-find / schedd-seq / schedd-accept /
+             schedd-acceptw), spoken to through `Drv` (one request line in, one
+             reply line out).
 Code side  : the real lbzip2 built from a source tree with the verification
              hooks (-DKJN_LBZIP2_VERIF) and run with LBZIP2_VERIF_TRACE, whose
              scheduler trace is converted by `trace_to_events` into the compact
@@ -13,6 +14,11 @@ Stdlib only; nothing here writes outside the `tmpdir` it is given.
 `python3 sched_d_lib.py` runs a self-test (scratch in a mkdtemp, removed).
 
 Trace format notes (src/process.c verif_trace_event, src/expand.c dump hook):
+  * K is I (init), R (worker starts a task), U (sched_unlock; name = the
+    next_task it selected or `-`), W (worker calls xwait / leaves its loop),
+    F (final), and optionally S (`S t=<tid> signal`: xsignal inside
+    sched_unlock, logged before that unlock's U line; ignored by schedd-accept,
+    checked by schedd-acceptw when present).
   * a line is  `<K> t=<tid> <name> wu= os= eof= pt= pd= in= scan= retr= emit=
     reord= order= unord= head= tail=`;  head/tail are word offsets and are
     passed through unchanged.
@@ -305,7 +311,7 @@ def trace_lines(path):
         data = f.read()
     lines = data.split('\n')
     lines.pop()                 # '' after the last '\n', or an unterminated cut
-    while lines and not re.match(r'^[IRUWF] t=\d+ \S+( \w+=\d+)+$', lines[-1]):
+    while lines and not re.match(r'^[IRUWSF] t=\d+ \S+( \w+=\d+)+$', lines[-1]):
         lines.pop()
     return lines
 
@@ -328,13 +334,64 @@ def trace_to_events(path):
     return ';'.join(evs)
 
 
-def accept(drv, n, tin, tout, ultra, events):
-    """schedd-accept -> (ok, reply).  An empty trace is (False, 'empty')."""
+def accept_base(drv, n, tin, tout, ultra, events):
+    """schedd-accept only (counter/queue-size projection of Model.SchedD)
+    -> (ok, reply).  An empty trace is (False, 'empty')."""
     if not events:
         return False, 'empty'
     r = drv.ask('schedd-accept %d %d %d %d %s' % (n, tin, tout,
                                                   int(bool(ultra)), events))
     return r.startswith('ok '), r
+
+
+def accept_w(drv, n, tin, tout, ultra, events, hung=False, lat_min=0):
+    """schedd-acceptw: replay of the I/R/U/W(/S)/F lines WITH their thread ids
+    against the projected refinement Model.SchedDW (sched_mutex holder,
+    next_task, one ready/inloop/running/waiting/exited state per worker thread;
+    Lemmas/SchedD/ProjW.lean) -> (ok, reply).
+
+    reply  `ok lines= steps= workers= wakeups= signals= maxlat= exits= schecks=`
+        or `reject <line#> <why>`: the first line the refined model refuses
+           (e.g. the `next=` of a U/W line is not a task select_task() can
+           return for the counters of that line, a worker waits although
+           next_task != NULL, exits before finished(), two threads inside the
+           mutex, and - when the tree logs `S t=<tid> signal` lines - an
+           xsignal that is missing or unexpected at a sched_unlock).
+        or (True, 'unavailable') when the driver has no such command.
+    hung=True : the trace is the prefix of a run that timed out; after the
+        replay the final refined state is diagnosed and the reply is
+        `reject <line#> hung <diagnosis>` (`lost-wakeup worker=i
+        signalled-at-line=L never-ran-again`, `worker-inside-task-never-
+        returned`, `mutex-held`, `no-thread-runnable`).
+    lat_min>0 : additionally reject when a signalled waiter has not run again
+        `lat_min` lines later.  Off by default: the OS may legitimately delay a
+        woken thread for thousands of trace lines on a loaded machine
+        (measured: maxlat 36 unloaded, 1425 at 16x overload)."""
+    if not events:
+        return False, 'empty'
+    r = drv.ask('schedd-acceptw %d %d %d %d %d %d %s' % (
+        n, tin, tout, int(bool(ultra)), int(lat_min), int(bool(hung)), events))
+    if r.startswith('bad-op'):
+        return True, 'unavailable'
+    return r.startswith('ok '), r
+
+
+def accept(drv, n, tin, tout, ultra, events):
+    """Both replays of a complete trace -> (ok, reply): `schedd-accept` (the
+    projection of Model.SchedD.step, thread ids ignored) and, if that accepts,
+    `schedd-acceptw` (Model.SchedDW.stepW with thread ids, see accept_w).  The
+    reply of a rejection is `reject <line#> <why>` of the first replay that
+    refuses, tagged `[SchedD]` / `[SchedDW]`; reject_context() understands
+    both.  An empty trace is (False, 'empty')."""
+    ok, r = accept_base(drv, n, tin, tout, ultra, events)
+    if not ok:
+        return False, (r + ' [SchedD]') if r.startswith('reject') else r
+    okw, rw = accept_w(drv, n, tin, tout, ultra, events)
+    if not okw:
+        return False, (rw + ' [SchedDW]') if rw.startswith('reject') else rw
+    if rw == 'unavailable':
+        return True, r
+    return True, r + ' | W ' + rw
 
 
 def reject_context(path, reply, ctx=3):
